@@ -143,8 +143,13 @@ impl Selection {
             } else {
                 // check if it exists in the user map
                 if let Ok(attr) = map.get(set, var) {
-                    let mut writer = HeaderWriter::new(cursor);
-                    if let Err(err) = writer.write_attribute(attr) {
+                    // all or nothing: an attribute that does not fit must not leave its header behind
+                    let start = cursor.position();
+                    let res = HeaderWriter::new(cursor).write_attribute(attr);
+                    if res.is_err() {
+                        let _ = cursor.seek_to(start);
+                    }
+                    if let Err(err) = res {
                         match err {
                             AttrWriteError::Cursor => return false, // out of space
                             AttrWriteError::BadAttribute(err) => {
